@@ -158,7 +158,7 @@ class Sym:
         if k == "unop":
             return ("unop", rv["op"], self.operand(rv["a"], depth))
         if k == "discr":
-            return ("discr", self.place(rv["place"], depth))
+            return ("discr", self.place(rv["place"], depth), rv.get("adt") or "")
         if k == "aggr":
             fs = tuple(self.operand(f, depth) for f in rv["fields"])
             if rv["agg"] == "adt":
